@@ -213,7 +213,7 @@ Section Recorded.
       apply in_app_or in Hin' as [K|[<-|[]]]; [apply Hold; exact K|]. rewrite Hrq.
       specialize (Hloud _ _ EF). rewrite Hk in Hloud.
       match goal with |- In _ (ls_errored (merge_result f ?res ?items ?batch ?s0)) =>
-        exact (proj2 (proj2 (loud_outcome answer root_answer f k _ _ _ _ _ items s0 Hrobj Hd Hloud P))) end.
+        exact (proj2 (proj2 (loud_outcome answer root_answer f k _ _ _ _ items s0 Hrobj Hd Hloud P))) end.
     - rewrite merge_result_reqs in Hin.
       match type of Hin with In _ (ls_reqs (if ?c then _ else _)) => assert (Hin' : In rq (ls_reqs s ++ [rq0])) by (destruct c; exact Hin) end.
       apply in_app_or in Hin' as [K|[<-|[]]]; [apply Hold; exact K|]. rewrite Hrq in HF. congruence.
